@@ -131,7 +131,7 @@ def twoStepFresnel(Uin, wvl, d1, d2, z):
     #Evaluate Fresnel-Kirchhoff integral
     A = 1./(1j * wvl * Dz1)
     B = numpy.exp(1j * k/(2*Dz1) * (x1a**2 + y1a**2) )
-    C = fouriertransform.ft2(Uin * numpy.exp(1j * k/(2*Dz1) * (x1**2 + y1**2)), d1)
+    C = _fresnelTransform(Uin * numpy.exp(1j * k/(2*Dz1) * (x1**2 + y1**2)), d1, Dz1)
     Uitm = A*B*C
     #Observation plane
     Dz2 = z - Dz1
@@ -143,10 +143,22 @@ def twoStepFresnel(Uin, wvl, d1, d2, z):
     #Evaluate the Fresnel diffraction integral
     A = 1. / (1j * wvl * Dz2)
     B = numpy.exp( 1j * k/(2 * Dz2) * (x2**2 + y2**2) )
-    C = fouriertransform.ft2(Uitm * numpy.exp( 1j * k/(2*Dz2) * (x1a**2 + y1a**2)), d1a)
+    C = _fresnelTransform(Uitm * numpy.exp( 1j * k/(2*Dz2) * (x1a**2 + y1a**2)), d1a, Dz2)
     Uout = A*B*C
 
     return Uout
+
+
+def _fresnelTransform(U, d, Dz):
+    """
+    Fourier transform factor of the Fresnel integral for a signed propagation distance, on a grid of positive spacing.
+
+    For a negative distance the kernel is exp(+2i pi x.f): the transform evaluated at -f, which is the conjugate of the
+    transform of the conjugate. Using the forward transform for both signs returns the field rotated by 180 degrees.
+    """
+    if Dz < 0:
+        return numpy.conj(fouriertransform.ft2(numpy.conj(U), d))
+    return fouriertransform.ft2(U, d)
 
 def lensAgainst(Uin, wvl, d1, f):
     '''
